@@ -115,6 +115,12 @@ pub proof fn lemma_children_items(ch: Seq<CompiledProg>, items: Seq<P<Expr>>, k:
     decreases k
 { if k > 0 { lemma_children_items(ch, items, k - 1); } }
 
+// unary operators on constants are functions of their operand (their own contracts: units value_arith / value_cmp)
+pub uninterp spec fn op1(op: ByteCode, a: CelValue) -> CelValue;
+impl vstd::std_specs::ops::NegSpecImpl for CelValue { open spec fn obeys_neg_spec() -> bool { true } open spec fn neg_req(self) -> bool { true } open spec fn neg_spec(self) -> CelValue { op1(ByteCode::Neg, self) } }
+impl vstd::std_specs::ops::NotSpecImpl for CelValue { open spec fn obeys_not_spec() -> bool { true } open spec fn not_req(self) -> bool { true } open spec fn not_spec(self) -> CelValue { op1(ByteCode::Not, self) } }
+impl std::ops::Neg for CelValue { type Output = CelValue; #[verifier::external_body] fn neg(self) -> CelValue { unimplemented!() } }
+impl std::ops::Not for CelValue { type Output = CelValue; #[verifier::external_body] fn not(self) -> CelValue { unimplemented!() } }
 impl SyntaxError {
     #[verifier::external_body] pub fn from_location(loc: SourceLocation) -> SyntaxError { unimplemented!() }
     #[verifier::external_body] pub fn with_message(self, msg: String) -> SyntaxError { unimplemented!() }
